@@ -53,8 +53,25 @@ Admissible(term) ==
          /\ Functional(Apply(term))
          /\ Cardinality(Names(Apply(term))) = Cardinality(Names(Apply(term.s)))
 
+\* the same, except that identifiers listed by only/except/rename need not be found in the set: R7RS calls that an
+\* error, Ruschm ignores such identifiers; either is accepted, but an identifier that is NOT in the set is never bound
+\* through being listed (Apply filters and renames what is there, nothing else)
+RECURSIVE AdmissibleButForStrays(_)
+AdmissibleButForStrays(term) ==
+  CASE term.t = "lib" -> TRUE
+    [] term.t \in {"only", "except"} ->
+         /\ AdmissibleButForStrays(term.s)
+         /\ \A i, j \in DOMAIN term.ids : i # j => term.ids[i] # term.ids[j]
+    [] term.t = "prefix" -> AdmissibleButForStrays(term.s)
+    [] term.t = "rename" ->
+         /\ AdmissibleButForStrays(term.s)
+         /\ \A i, j \in DOMAIN term.pairs : i # j => term.pairs[i][1] # term.pairs[j][1]
+         /\ Functional(Apply(term))
+         /\ Cardinality(Names(Apply(term))) = Cardinality(Names(Apply(term.s)))
+
 \* a declaration (import s1 s2 ...) binds the union
 ApplyDecl(sets) == UNION {Apply(sets[i]) : i \in DOMAIN sets}
 AdmissibleDecl(sets) == (\A i \in DOMAIN sets : Admissible(sets[i])) /\ Functional(ApplyDecl(sets))
+AdmissibleDeclButForStrays(sets) == (\A i \in DOMAIN sets : AdmissibleButForStrays(sets[i])) /\ Functional(ApplyDecl(sets))
 
 =============================================================================
